@@ -102,3 +102,37 @@ fn append_any_prefix() { append_any_prefix_body() }
 #[cfg(all(not(kani), psc_verif_replay))]
 #[test]
 fn replay_append_any_prefix() { vk::load_replay(); append_any_prefix_body() }
+
+/// C15, prefix-width jumps with concrete counts and a real payload (items are `u8`): the count prefix grows from 1 to 2, 2 to 4,
+/// 1 to 4 and 4 to 5 bytes; the result must be compact(old + n) ++ old payload ++ new items, byte for byte.
+fn append_jump_case(old_count: u32, n_new: usize, check_payload: bool) {
+    // existing encoding: compact(old_count) followed by old_count payload bytes (only materialised for small counts)
+    let (pre, plen) = spec_compact_u32(old_count);
+    let mut v: Vec<u8> = Vec::new();
+    let mut i = 0;
+    while i < plen { v.push(pre[i]); i += 1; }
+    if check_payload { let mut k = 0; while k < old_count as usize { v.push(0xA0 + (k as u8 & 7)); k += 1; } }
+    let r = if check_payload { append_or_new_impl::<u8, _>(v, [0x5Au8].iter().copied()) } else { append_or_new_impl::<(), _>(v, UnitIter { reported: n_new, actual: 0 }) };
+    let (exp, elen) = spec_compact_u32(old_count + n_new as u32);
+    match r {
+        Ok(out) => {
+            let payload = if check_payload { old_count as usize + n_new } else { 0 };
+            assert!(out.len() == elen + payload, "appended encoding has the wrong length after a prefix-width jump");
+            let mut j = 0;
+            while j < elen { assert!(out[j] == exp[j], "appended encoding has the wrong count prefix after a prefix-width jump"); j += 1; }
+            if check_payload {
+                assert!(out[elen] == 0xA0 && out[elen + old_count as usize - 1] == 0xA0 + ((old_count as u8 - 1) & 7), "old payload moved or overwritten by the wider prefix");
+                assert!(out[elen + old_count as usize] == 0x5A, "appended item is not at the end");
+            }
+        }
+        Err(_) => assert!(false, "append failed on a representable count"),
+    }
+}
+fn append_jumps_body() {
+    append_jump_case(63, 1, true);                 // 1 -> 2 byte prefix, payload shifted by one
+    append_jump_case(0, 20000, false);             // 1 -> 4 bytes in one append
+    append_jump_case((1 << 14) - 1, 1, false);     // 2 -> 4 bytes
+    append_jump_case((1 << 30) - 1, 1, false);     // 4 -> 5 bytes
+}
+#[cfg(kani)] #[kani::proof] #[kani::unwind(70)] fn append_jumps() { append_jumps_body() }
+#[cfg(all(not(kani), psc_verif_replay))] #[test] fn replay_append_jumps() { vk::load_replay(); append_jumps_body() }
